@@ -139,6 +139,9 @@ type world struct {
 	mu     ssync.Mutex // the queue is not thread safe: clients serialise (the scheduler's event loop does)
 	ops    int
 	hist   []string
+	// in vivo only: owning node and the instant each torrent was last handed out
+	node     *simrt.Node
+	handedAt map[int]time.Duration
 }
 
 func (w *world) note(format string, a ...any) {
@@ -224,6 +227,9 @@ func (w *world) nextHash() (int, core.InfoHash, bool) {
 	}
 	m.ready = append(m.ready[:i:i], m.ready[i+1:]...)
 	m.inflight[r] = true
+	if w.handedAt != nil {
+		w.handedAt[r] = w.s.Now()
+	}
 	w.s.Probe("next_hit")
 	return r, ih, true
 }
@@ -392,7 +398,7 @@ func TestC20(t *testing.T) {
 		Property: "C20",
 		Body:     body,
 		Config: func(tier string) simrt.Config {
-			return simrt.Config{MaxSteps: 200000, Horizon: 6 * time.Hour, PanicIsFailure: true}
+			return simrt.Config{MaxSteps: 20_000_000, Horizon: 6 * time.Hour, PanicIsFailure: true}
 		},
 		Real: []string{"lib/torrent/scheduler/announcequeue.QueueImpl"},
 		Stub: []string{"clients of the queue: harness tasks serialised by a lock (ticker, announce round trips, torrent lifecycle); the real scheduler is not part of this check"},
